@@ -64,9 +64,9 @@ type in15 struct {
 
 func c15(tier string, args []string) int {
 	r := newRun("C15", tier, "model_checking")
-	depth := 4
+	depth := 6
 	if tier == "thorough" {
-		depth = 5
+		depth = 10
 	}
 	r.Assume = []string{
 		"reference pool model of DESIGN A.4: a submission posts iff its id is pending and type and payload equal the stored ones; what is posted are the submission's result messages with sender and signature rewritten; afterwards the id is retired for good",
